@@ -70,6 +70,22 @@ def function_level(v, vec, tier, rnd):
             v.violation('_get_ipsec_configuration differs from the narrowing rule of the specification', {'case': c, 'got': got},
                         signature={'component': 'narrow', 'want_ok': c['out']['ok'], 'got_ok': got['ok']})
             break
+    for c in vec['rekey']:
+        protect = [IpsecConfiguration(my_ts=mk_ts(M, e['my']), index=i + 1, peer_ts=mk_ts(M, e['peer']), lifetime=5, mode=None, proposal=None)
+                   for i, e in enumerate(c['policy'])]
+        fake = types.SimpleNamespace(configuration=types.SimpleNamespace(protect=protect))
+        try:
+            conf, tsr, tsi = ikesa.IkeSa._get_ipsec_configuration(fake, M.PayloadTSi([mk_ts(M, c['tsi'])]), M.PayloadTSr([mk_ts(M, c['tsr'])]), narrow=False)
+            got = {'ok': True, 'entry': conf.index, 'tsi': abs_ts(tsi), 'tsr': abs_ts(tsr)}
+        except M.TsUnacceptable:
+            got = {'ok': False}
+        except TypeError as ex:
+            got = {'error': str(ex)}
+        n += 1
+        if got != c['out']:
+            v.violation('matching the selectors of a rekey request against the policy differs from `RekeyMatch` of the specification (no narrowing)', {'case': c, 'got': got},
+                        signature={'component': 'rekeymatch'})
+            break
     for c in vec['convert']:
         net = ipaddress.ip_network(f'10.0.0.{c["net"]["base"]}/{29 + c["net"]["len"]}')
         ts = M.TrafficSelector.from_network(net, PORT[c['port']], c['proto'])
@@ -229,6 +245,39 @@ def end_to_end(v):
                             {}, signature={'component': 'e2e:rekey_narrowed'})
         except wd.Escape as ex:
             v.violation(f'narrowed rekey answer: {ex}', {}, signature={'component': 'e2e:escape'})
+        finally:
+            w.close()
+    # (4c) ... and on the responder's side when its policy has SEVERAL entries: the rekey request carries the old selectors, and matching them against the policy
+    #      once more must not narrow them to an earlier, smaller entry (the CHILD_SA was negotiated under the later, wider one: the responder itself started it)
+    for first in (dict(ip_proto='tcp', peer_port=80), dict(ip_proto='udp'), dict(ip_proto='tcp', my_port=443, mode='tunnel')):
+        nets = {'my_subnet': '10.1.0.0/16', 'peer_subnet': '10.2.0.0/16'}
+        rnets = {'my_subnet': '10.2.0.0/16', 'peer_subnet': '10.1.0.0/16'}
+        ca = wd.connection_dict('A', 'B', mode='tunnel', **rnets)
+        cb = wd.connection_dict('B', 'A', mode='tunnel', **nets)
+        wide = dict(cb['protect'][0], ip_proto='any', index=42)
+        cb['protect'] = [dict(wide, index=41, **first), wide]
+        ca['protect'] = [dict(ca['protect'][0], ip_proto='any')]
+        w = wd.World(conf={'A': {'A-B': ca}, 'B': {'B-A': cb}}, seed=common.SEED)
+        try:
+            m0, cur0 = w.acquire('B', index=42, proto=17, sel_saddr='10.1.0.9', sel_daddr='10.2.0.9', sport=0, dport=0), 'B'
+            while m0 is not None:
+                nxt0 = w.peer_of(cur0)
+                m0, cur0 = w.dispatch(nxt0, m0, cur0), nxt0
+            a, b = w.sas('A')[0], w.sas('B')[0]
+            if a.state.name != 'ESTABLISHED' or len(a.child_sas) != 1 or len(b.child_sas) != 1:
+                raise common.MachineryError(f'the CHILD_SA under the wide entry did not come up: {a.state.name}, {len(a.child_sas)} / {len(b.child_sas)} CHILD_SAs')
+            old = sorted((r['sel']['proto'], r['sel']['sport'], r['sel']['dport'], r['sel']['prefixlen_s'], r['sel']['prefixlen_d']) for r in w.kernel['B'].sad.values())
+            req = bytes(w.expire('A', bytes(a.child_sas[0].inbound_spi), False))
+            seen = set(w.kernel['B'].sad)
+            res = w.dispatch('B', req, 'A')
+            n += 1
+            new = sorted((r['sel']['proto'], r['sel']['sport'], r['sel']['dport'], r['sel']['prefixlen_s'], r['sel']['prefixlen_d']) for k, r in w.kernel['B'].sad.items() if k not in seen)
+            if new != old:
+                v.violation(f'responder with the entries [{first}, any] on the same networks: the CHILD_SA it rekeys for the peer was negotiated under the second entry '
+                            f'(kernel selectors {old}); the SAs it installs for the rekey have {new if new else "- nothing was installed"} '
+                            '(a rekeyed SA has the selectors of the one it replaces)', {'first_entry': first}, signature={'component': 'e2e:rekey_responder_narrows'})
+        except wd.Escape as ex:
+            v.violation(f'rekey at a responder with several entries: {ex}', {}, signature={'component': 'e2e:escape'})
         finally:
             w.close()
     for name in ('widen tsr', 'widen tsi', 'drop transport mode', 'add transport mode', 'two tsr, the wide one first', 'two tsi, the wide one first'):
